@@ -336,8 +336,9 @@ func (r *FileRestorer) updateImports() error {
 
 		alias := effectiveAlias[path]
 
-		if alias == "." || alias == "_" {
-			// no conflict checking for dot-imports or anonymous imports
+		if alias == "." || alias == "_" || path == "C" {
+			// no conflict checking for dot-imports, anonymous imports or the cgo pseudo-import:
+			// none of them has a name in the code
 			r.packageNames[path], aliases[path] = "", alias
 			continue
 		}
